@@ -13,6 +13,7 @@ Section Termination.
 Variable len : nat.
 Variable known : bool.
 Variable stop : nat -> bool.
+Variable panics : nat -> bool.
 Variable dospawn : nat -> option nat -> bool.
 Variable nextc : nat -> option nat -> option nat.
 Variable maxt : nat.
@@ -21,11 +22,11 @@ Hypothesis dospawn_bound : forall n h, dospawn n h = true -> n + 2 <= maxt.
 Hypothesis nextc_pos : forall n h c, nextc n h = Some c -> 0 < c.
 Hypothesis maxt_pos : 1 <= maxt.
 
-Notation wstep := (wstep len stop).
-Notation step := (step len known stop dospawn nextc).
-Notation run := (run len known stop dospawn nextc).
+Notation wstep := (wstep len stop panics).
+Notation step := (step len known stop panics dospawn nextc).
+Notation run := (run len known stop panics dospawn nextc).
 Notation sstep := (sstep len known dospawn nextc).
-Notation GInv := (GInv len stop maxt).
+Notation GInv := (GInv len stop panics maxt).
 
 (** ** the early-exit signal closes the source *)
 Record SInv (s : sys) : Prop := {
@@ -39,15 +40,17 @@ Lemma wstep_SInv c f sk w c' f' sk' w' :
   (sk' = true -> len <= c') /\ length (pending w') <= csize w' /\ csize w' = csize w.
 Proof.
   unfold Machine.wstep, pending. destruct w as [cs p sn ab pl]; cbn [ph csize seen aband pulls].
-  intros H Hsk Hp. destruct p as [|b k| |].
+  intros H Hsk Hp. destruct p as [|b k| | |].
   - destruct (c <? len); injection H as <- <- <- <-; cbn [ph csize]; rewrite ?seq_length; repeat split; auto; try lia.
     + intros E. specialize (Hsk E). lia.
     + intros E. specialize (Hsk E). lia.
   - destruct k as [|k]; [injection H as <- <- <- <-; cbn; auto|].
     rewrite seq_length in Hp.
+    destruct (panics b); [injection H as <- <- <- <-; cbn; repeat split; auto; lia|].
     destruct (stop b); [injection H as <- <- <- <-; cbn; repeat split; auto; lia|].
     destruct k as [|k]; injection H as <- <- <- <-; cbn [ph csize]; rewrite ?seq_length; repeat split; auto; cbn; lia.
   - injection H as <- <- <- <-. cbn. repeat split; auto; lia.
+  - injection H as <- <- <- <-. cbn. repeat split; auto.
   - injection H as <- <- <- <-. cbn. repeat split; auto.
 Qed.
 
@@ -89,6 +92,7 @@ Definition wpot (w : worker) : nat :=
   | Holding _ k => 2 * k + 3
   | Found => 1
   | Done => 0
+  | Dead => 0
   end.
 Definition rank (p : sphase) : nat :=
   match p with SpLoop _ => 2 | SpLag => 3 | SpFinal => 1 | SpDone => 0 end.
@@ -101,7 +105,7 @@ Definition enabled (s : sys) (t : nat) : bool :=
   match t with
   | 0 => match sph s with SpDone => false | _ => true end
   | S i => match nth_error (ws s) i with
-           | Some w => match ph w with Done => false | _ => true end
+           | Some w => match ph w with Done | Dead => false | _ => true end
            | None => false
            end
   end.
@@ -122,10 +126,11 @@ Proof.
   destruct t as [|i]; simpl.
   - unfold Machine.sstep. destruct (sph s); try discriminate. reflexivity.
   - destruct (nth_error (ws s) i) as [w|] eqn:En; [|reflexivity].
-    destruct w as [cs p sn ab pl]; cbn. destruct p; try discriminate. intros _.
-    unfold Machine.wstep; cbn. destruct s; cbn in *. f_equal.
-    clear - En. revert i En. induction ws as [|h r IH]; intros i En; [destruct i; discriminate|].
-    destruct i; simpl in *; [injection En as ->; reflexivity|]. f_equal. apply IH; auto.
+    assert (Hupd : forall (l : list worker) j x, nth_error l j = Some x -> upd l j x = l).
+    { induction l as [|h r IH]; intros j x Hj; [destruct j; discriminate|].
+      destruct j; simpl in *; [injection Hj as ->; reflexivity|]. f_equal. apply IH; auto. }
+    destruct w as [cs p sn ab pl]; cbn. destruct p; try discriminate; intros _;
+      unfold Machine.wstep; cbn; destruct s; cbn in *; f_equal; apply Hupd; exact En.
 Qed.
 
 (** every enabled step strictly decreases the measure *)
@@ -151,7 +156,7 @@ Proof.
     pose proof (@wsum_upd _ i w w' En) as Hu.
     assert (Hd : wpot w' + (if sk' then 0 else 4 * (len - f')) < wpot w + (if skipped s then 0 else 4 * (len - front s))).
     { clear Hu. unfold Machine.wstep in Ew. destruct w as [cs p sn ab pl]; unfold wpot in *; cbn [ph] in *.
-      destruct p as [|b k| |]; try discriminate.
+      destruct p as [|b k| | |]; try discriminate.
       - destruct (Nat.ltb_spec (ctr s) len) as [Hlt|Hge].
         + injection Ew as <- <- <- <-. cbn [ph].
           assert (Hsk : skipped s = false).
@@ -162,6 +167,7 @@ Proof.
           lia.
         + injection Ew as <- <- <- <-. cbn [ph]. destruct (skipped s); lia.
       - destruct k as [|k]; [injection Ew as <- <- <- <-; cbn [ph]; destruct (skipped s); lia|].
+        destruct (panics b); [injection Ew as <- <- <- <-; cbn [ph]; destruct (skipped s); lia|].
         destruct (stop b); [injection Ew as <- <- <- <-; cbn [ph]; destruct (skipped s); lia|].
         destruct k as [|k]; injection Ew as <- <- <- <-; cbn [ph]; destruct (skipped s); lia.
       - injection Ew as <- <- <- <-. cbn [ph]. destruct (skipped s); lia. }
@@ -192,10 +198,11 @@ Lemma not_done_enabled s : all_doneb s = false -> exists t, enabled s t = true /
 Proof.
   unfold all_doneb. destruct (sph s) eqn:Ep; try (intros _; exists 0; simpl; rewrite Ep; split; [reflexivity|lia]).
   intros H.
-  assert (exists i w, nth_error (ws s) i = Some w /\ ph w <> Done) as (i & w & Hi & Hw).
+  assert (exists i w, nth_error (ws s) i = Some w /\ ph w <> Done /\ ph w <> Dead) as (i & w & Hi & Hw & Hw2).
   { clear Ep. induction (ws s) as [|h r IH]; simpl in H; [discriminate|].
-    destruct (ph h) eqn:E; try (exists 0, h; split; [reflexivity|congruence]).
-    simpl in H. destruct (IH H) as (i & w & Hi & Hw). exists (S i), w. auto. }
+    destruct (ph h) eqn:E; try (exists 0, h; split; [reflexivity|split; congruence]).
+    - simpl in H. destruct (IH H) as (i & w & Hi & Hw). exists (S i), w. auto.
+    - simpl in H. destruct (IH H) as (i & w & Hi & Hw). exists (S i), w. auto. }
   exists (S i). simpl. rewrite Hi. split; [destruct (ph w); congruence|].
   apply nth_error_Some_lt in Hi. lia.
 Qed.
@@ -205,8 +212,8 @@ Proof.
   unfold all_doneb, all_done. destruct (sph s); split; try (intros H; discriminate H);
     try (intros [H _]; discriminate H).
   - intros H. split; [reflexivity|]. rewrite forallb_forall in H. intros w Hw. specialize (H w Hw).
-    destruct (ph w); congruence.
-  - intros [_ H]. apply forallb_forall. intros w Hw. rewrite (H w Hw). reflexivity.
+    unfold finished. destruct (ph w); try discriminate; auto.
+  - intros [_ H]. apply forallb_forall. intros w Hw. destruct (H w Hw) as [-> | ->]; reflexivity.
 Qed.
 
 (** other threads' steps never disable a thread *)
@@ -279,7 +286,8 @@ Proof.
         rewrite disabled_stutters; auto.
         apply all_doneb_spec in E. destruct E as [E1 E2]. destruct t as [|i]; simpl.
         - rewrite E1. reflexivity.
-        - destruct (nth_error (ws s) i) as [w|] eqn:En; auto. rewrite (E2 w (nth_error_In _ _ En)). reflexivity. }
+        - destruct (nth_error (ws s) i) as [w|] eqn:En; auto.
+          destruct (E2 w (nth_error_In _ _ En)) as [-> | ->]; reflexivity. }
       rewrite !Hst. exact E.
     + assert (Hm : length (ws s) <= maxt) by (apply (run_ws_bound [] G)).
       pose proof (round_progress G HS Hm E) as Hp.
